@@ -73,6 +73,24 @@ Theorem c08_md_wire_roundtrip_status : forall st m0,
     hm_get_all (from_headers h) k = match hm_get_all (st_md st) k with [] => hm_get_all m0 k | l => l end.
 Proof. exact status_roundtrip_md. Qed.
 
+(* ... and on the RECEIVING side: the peer reads those headers with Status::from_header_map (the
+   client does so for a trailers-only response and for trailers after messages); the metadata of
+   the status it gets holds every non-reserved user entry with the same values in the same
+   order (repeated keys, ASCII or binary), the entries m0 had under other names (the content-type
+   of a trailers-only response), and nothing under the three status header names.  Premise (M1):
+   the name is not grpc-status-details-bin, which the receiver always reads as the details. *)
+Theorem c08_status_metadata_received : forall st m0,
+  well_formed st ->
+  exists h st', add_header st m0 = Some h /\ status_received st m0 = Some st' /\
+    from_header_map h = Some st' /\
+    (forall k, is_reserved k = false -> k <> hdr_grpc_status_details ->
+       hm_get_all (st_md st') k = match hm_get_all (st_md st) k with [] => hm_get_all m0 k | l => l end) /\
+    (forall k, is_reserved k = true -> k <> hdr_grpc_status -> k <> hdr_grpc_message ->
+       hm_get_all (st_md st') k = hm_get_all m0 k) /\
+    hm_get_all (st_md st') hdr_grpc_status = [] /\ hm_get_all (st_md st') hdr_grpc_message = [] /\
+    hm_get_all (st_md st') hdr_grpc_status_details = [].
+Proof. exact status_metadata_received. Qed.
+
 (* Status::into_http (trailers-only response) never reaches its unwrap and is add_header onto
    {content-type: application/grpc} *)
 Theorem c08_status_into_http_total : forall st,
@@ -281,3 +299,4 @@ Print Assumptions c08_entry_typing.
 Print Assumptions c08_insert_entry_typing.
 Print Assumptions c08_keys_typing.
 Print Assumptions c08_binary_end_to_end.
+Print Assumptions c08_status_metadata_received.
